@@ -21,18 +21,18 @@ import json
 import random
 
 import lib
-import pool
+import uni_par
 import uni_mod as um
 
 BATCH = 12
 ACTIONS = ("ChooseOuter", "ChooseInnerBody", "Push", "EmitDagger", "EmitPower", "EmitControl", "PrepareArgs", "Call")
 
 
-def spec_cases(ctx, cfg):
-    r = ctx.tlc("Modifiers", cfg, coverage=True, timeout=1700)
+def spec_cases(ctx, cfg, coverage=False):
+    r = ctx.tlc("Modifiers", cfg, coverage=coverage, timeout=1700)
     if not r.ok:
         raise lib.Machinery("Modifiers.tla: a law of the lowering model fails (specification error):\n" + r.error)
-    for a in ACTIONS:
+    for a in ACTIONS if coverage else ():
         if sum(r.coverage.get(a, (0, 0))) == 0:
             raise lib.Machinery(f"Modifiers.tla: action {a} never taken (vacuous run); coverage={r.coverage}")
     cases = [p for p in r.printed if "case" in p]
@@ -66,19 +66,12 @@ def spec_cases(ctx, cfg):
     return cases, r
 
 
-def preload():
-    import gp  # noqa: F401
-    import guppylang.std.builtins  # noqa: F401
-    import guppylang.std.quantum  # noqa: F401
-
-
 def observe(cases, seed):
-    preload()
     order = list(range(len(cases)))
     random.Random(seed).shuffle(order)
     slim = lambda p: {"expected": p["expected"], "body": p["body"]}  # noqa: E731
     jobs = [{"cases": [slim(cases[i]) for i in order[j:j + BATCH]], "seed": seed} for j in range(0, len(order), BATCH)]
-    out = pool.map_jobs(um.observe_batch, jobs, chunksize=1)
+    out = uni_par.run(um.observe_batch, jobs, est_seconds_per_job=0.3)
     flat = [r for b in out for r in b]
     obs = [None] * len(cases)
     for i, r in zip(order, flat):
@@ -214,7 +207,7 @@ def report(ctx, findings, seed):
 def run(ctx):
     ctx.level = "model_checking"
     cfg = ctx.pick("Modifiers.cfg", "Modifiers_thorough.cfg")
-    cases, r = spec_cases(ctx, cfg)
+    cases, r = spec_cases(ctx, cfg, coverage=not ctx.quick)
     ctx.log(f"TLC: {len(cases)} cases, {r.distinct} states, {r.wall:.1f}s")
     obs = observe(cases, ctx.seed)
     findings = compare(cases, obs)
